@@ -7,14 +7,20 @@ from harness.catalog import E
 
 
 def _inst(tier):
-    return pipe.instances(tier, 2, 3, nmin=1, tagsel=lambda t: "cb" in t)
+    out = pipe.instances(tier, 2, 3, nmin=1, tagsel=lambda t: "cb" in t)
+    if tier == "quick":
+        # merge(max_concurrent) over two outer elements: the fault position is split over instances to fit the quick budget
+        out = [i for i in out if not (i["op"] == "merge_max" and i["N"] == 2)]
+        out += [{"op": "merge_max", "N": 2, "k": k, "_timeout": 300} for k in range(1, 5)]
+    return out
 
 
-@harness(instances=_inst, timeout=(90, 900), **pipe.params(with_k=True))
+@harness(instances=_inst, timeout=(150, 900), **pipe.params(with_k=True))
 def h_fault(a, inst):
-    if a.k == 0:
+    kk = inst["k"] if "k" in inst else a.k
+    if kk == 0:
         return True
-    r = pipe.run(a, inst, k=a.k)
+    r = pipe.run(a, inst, k=kk)
     if not r.ctx.fired:
         return True
     cover("fired")
